@@ -153,7 +153,16 @@ impl ScriptedObjectStore {
         let mut g = self.inner.lock().unwrap();
         let op = *g.cur_op.get(&self.actor).unwrap_or(&0);
         if let Some(p) = g.faults.iter().position(|(o, c, _)| *o == op && c == class) {
-            let (_, _, k) = g.faults.remove(p);
+            let (o, c, k) = g.faults.remove(p);
+            // "fail*3": the fault stays armed for three consecutive calls of the class (a read that keeps failing: every
+            // retry of an implementation that retries meets it again)
+            if let Some((base, n)) = k.rsplit_once('*') {
+                let n: usize = n.parse().unwrap_or(1);
+                if n > 1 {
+                    g.faults.insert(p, (o, c, format!("{base}*{}", n - 1)));
+                }
+                return Some(base.to_string());
+            }
             return Some(k);
         }
         None
@@ -607,8 +616,10 @@ fn random_scenario(rng: &mut impl Rng, i: usize, cheavy: bool) -> Value {
         };
         deltas.push(d);
     }
-    let faults = ["none", "none", "get_man:fail", "put_seg:fail", "put_seg:partial", "put_tmp:fail", "put_tmp:partial", "rename:fail", "rename:applied"];
-    let cfaults = ["none", "none", "get_man:fail", "get_seg:fail", "get_seg:corrupt", "put_seg:fail", "put_seg:partial", "put_tmp:fail", "rename:fail", "rename:applied", "delete_seg:fail"];
+    let faults = ["none", "none", "get_man:fail", "put_seg:fail", "put_seg:partial", "put_tmp:fail", "put_tmp:partial", "rename:fail", "rename:applied",
+                  "get_man:fail*3", "put_seg:fail*3", "put_tmp:fail*2"];
+    let cfaults = ["none", "none", "get_man:fail", "get_seg:fail", "get_seg:corrupt", "put_seg:fail", "put_seg:partial", "put_tmp:fail", "rename:fail", "rename:applied", "delete_seg:fail",
+                   "get_seg:fail*2", "get_seg:fail*3", "get_seg:fail*5", "get_man:fail*3", "get_seg:corrupt*3", "put_seg:fail*3", "delete_seg:fail*3"];
     let mut ops = Vec::new();
     for id in 1..=n {
         ops.push(json!(["push", id]));
